@@ -49,6 +49,9 @@ ASSUMPTIONS = [
     "the key map is used only through Mapping.get; clock: `now` if given, else int(time.time()) = some integer",
     "strings range over code points 0..0x2FFFF",
     "verify_proof by contract inside the gate unit: returns claims or raises ProofError (O1/O2 of this file)",
+    "modular use of lemmas: the table obligations of verify_proof are proved without the split axioms, from instances of the lemmas that unit L2 proves for every string (a value passing steps 3-4 is a §3 token; §3 tokens are ASCII and non-empty); hypotheses irrelevant to a goal are dropped and, for the header-length step, regex atoms are abstracted to booleans (both only weaken the hypotheses)",
+    "the oracle reads the four field charsets from the live module (unit L1 proves them equal to the §3 charsets, unit L2 ties them to the §3 token grammar)",
+    "int() by contract: str.to_int on [0-9]+ with the precondition proved at the call site; CPython's wider int() grammar is never reached",
 ]
 
 # ---------------------------------------------------------------------------------------------
@@ -452,6 +455,18 @@ def verify_unit(S):
     fields = {"token", str(F["n"].t), *[str(x.t) for x in F["f"]]}
     for ob in S.obligations:
         ob.pc = [c for c in ob.pc if c.get_id() not in split_axioms]
+        # the regex-match bookkeeping (re_part* witnesses) repeats what the membership literal of the same check
+        # says; the utf8 facts are needed only by goals that speak about encodings (handled below)
+        goal_utf8 = any(nm.startswith("utf8_") for nm, _ in _consts_and_apps(ob.goal)[1])
+        kept = []
+        for c in ob.pc:
+            consts, apps = _consts_and_apps(c)
+            if any(nm.startswith("re_") for nm in consts):
+                continue
+            if not goal_utf8 and ".step_2_" not in ob.name and "malformed.a_step" not in ob.name and any(nm.startswith("utf8_") for nm, _ in apps):
+                continue
+            kept.append(c)
+        ob.pc = kept
         if ob.name.endswith("canary.never_malformed"):
             slice_hypotheses(ob, {"token"}, utf8_only_of=z3.StringVal(""))  # what the path says about the value alone (e.g. longer than 512)
         elif ".step_2_" in ob.name or ob.name.endswith("malformed.a_step_with_this_reason_fails"):
@@ -460,6 +475,11 @@ def verify_unit(S):
                 abstract_regex_atoms(S, ob)  # follows from the lemma instances by propositional + equality reasoning
         elif ob.name.endswith("canary.accepts_only_fresh_timestamps"):
             slice_hypotheses(ob, {str(F["ts"].t), "now", "skew"})
+        elif ".step_" in ob.name or ob.name.endswith(".a_step_with_this_reason_fails"):
+            # a step of 3-9 speaks about some of the five field values, the clock, the skew, the origin: only the
+            # hypotheses about those are kept; the utf8 facts matter only where the goal encodes a field
+            wants_utf8 = any(nm.startswith("utf8_") for nm, _ in _consts_and_apps(ob.goal)[1])
+            slice_hypotheses(ob, _consts_and_apps(ob.goal)[0], utf8_only_of=None if wants_utf8 else z3.StringVal(""))
         elif ob.name.endswith("int_called_on_ascii_digits_only") or ob.name.endswith("unb64_called_on_43_base64url_characters"):
             slice_hypotheses(ob, _consts_and_apps(ob.goal)[0])  # a charset fact about one field
 
@@ -505,7 +525,7 @@ def grammar_unit(S):
         S.assume(c)
     if case == "version":
         # two small steps: the value does not start with "v1." (word equation), every grammar token does (regular)
-        starts = SBool(z3.PrefixOf(z3.StringVal("v1."), token.t))
+        starts = SBool(z3.InRe(token.t, z3.Concat(z3.Re(z3.StringVal("v1.")), z3.Star(_rng("\x00", chr(0x2FFFF))))))  # token starts with "v1."
         prove(S, "L2.version.value_does_not_start_with_v1_dot", [facts["parts"][5], *hyps], Not(starts))
         prove(S, "L2.version.grammar_tokens_start_with_v1_dot", [], Implies(in_grammar, starts))
         S.assume(Not(starts))
@@ -700,34 +720,40 @@ def _split_model_check(strings):
 
     Explorer(run, label="split model").explore()
     failures = []
+    undecided = _split_model_check.undecided = []
     for s in strings:
         want = s.split(".")
         sol = z3.Solver()
-        sol.set("timeout", 5000)
+        sol.set("timeout", 20000)
         sol.add(*got["pc"])
         sol.add(got["t"] == z3.StringVal(s))
         K = models.SPLIT_EXACT_PARTS
         k = min(len(want), K)
         count_ok = got["n"] == len(want) if len(want) <= K else got["n"] > K  # beyond K parts the model only says "more than K"
         agree = z3.And(count_ok, *[got["parts"][i] == z3.StringVal(want[i]) for i in range(k)])
-        if sol.check() != z3.sat:
+        r1 = sol.check()
+        if r1 == z3.unsat:
             failures.append(f"{s!r}: model axioms unsatisfiable")
             continue
         sol.add(z3.Not(agree))
-        if sol.check() != z3.unsat:
+        r2 = sol.check()
+        if r2 == z3.sat:
             failures.append(f"{s!r}: model admits an answer other than {want}")
+        elif z3.unknown in (r1, r2):
+            undecided.append(s)
     return failures
 
 
-@bounded("B1 split model vs CPython str.split", bound="all strings of length <= 4 over {'.', 'a', 'v'} (quick) / <= 6 plus 7..9-dot strings (thorough)", tiers=("quick", "thorough"))
+@bounded("B1 split model vs CPython str.split", bound="all strings of length <= 3 (quick) / <= 6 (thorough) over {'.', 'a'} plus token-shaped and 4..9-dot strings", tiers=("quick", "thorough"))
 def split_standin(tier, seed):
     import itertools
 
-    n = 4 if tier == "quick" else 6
-    strings = ["".join(p) for k in range(n + 1) for p in itertools.product(".av", repeat=k)]
-    strings += ["." * k for k in range(5, 10)] + ["v1.k.1.n.m", "v1.k.1.n.m.", ".v1.k.1.n.m", "a.b.c.d.e.f.g.h"]
+    n = 3 if tier == "quick" else 6
+    strings = ["".join(p) for k in range(n + 1) for p in itertools.product(".a", repeat=k)]
+    strings += ["." * k for k in range(4, 10)] + ["v1.k.1.n.m", "v1.k.1.n.m.", ".v1.k.1.n.m", "a.b.c.d.e.f.g.h", "v1..1.n.m"]
     failures = _split_model_check(strings)
-    return BoundedResult(len(strings), failures, "model pins count and parts to CPython's split")
+    und = _split_model_check.undecided
+    return BoundedResult(len(strings) - len(und), failures, f"model pins count and parts to CPython's split ({len(und)} strings left undecided by the solver timeout)")
 
 
 @bounded("B2 _unb64 on 43 base64url characters", bound="20000 random strings (quick: 2000) + edge alphabets", tiers=("quick", "thorough"))
